@@ -360,6 +360,8 @@ impl Visit for GetterReturnVisitor<'_, '_> {
         self.report_expected(return_stmt.range());
       }
     }
+    // the returned expression may itself contain getters
+    return_stmt.visit_children_with(self);
   }
 }
 
